@@ -141,3 +141,82 @@ pub fn gen_edge_local(rng: &mut Rng, net: &RefNet) -> Restrictions {
 pub fn query_with(fields: &Map<String, Value>) -> Value {
     Value::Object(fields.clone())
 }
+
+// ------------------------------------------------------------------------------------------
+// oracle evaluation from the raw configuration + query (used for directed / replayed cases and as a
+// self-check of the generator's mask)
+// ------------------------------------------------------------------------------------------
+
+fn dist_unit_si(name: &str) -> Option<f64> {
+    DIST_NAMES.iter().position(|n| *n == name).map(|i| U::dist_si(U::DISTANCE_UNITS[i]))
+}
+fn weight_unit_si(name: &str) -> Option<f64> {
+    WEIGHT_NAMES.iter().position(|n| *n == name).map(|i| U::weight_si(U::WEIGHT_UNITS[i]))
+}
+
+/// per-edge permission of one frontier configuration under `query`; `None` for models that are not edge-local
+pub fn oracle_allowed(cfg: &FrontierCfg, query: &Value, ne: usize) -> Option<Vec<bool>> {
+    match cfg {
+        FrontierCfg::None => Some(vec![true; ne]),
+        FrontierCfg::Turn { .. } => Some(vec![true; ne]),
+        FrontierCfg::RoadClass { classes, mapping } => {
+            let mut allowed = vec![true; ne];
+            if let Some(rc) = query.get("road_classes").and_then(|v| v.as_array()) {
+                let set: Vec<u8> = rc
+                    .iter()
+                    .filter_map(|x| match x {
+                        Value::Number(n) => n.as_u64().map(|v| v as u8),
+                        Value::String(s) => mapping.iter().find(|(k, _)| k == s).map(|(_, v)| *v),
+                        _ => None,
+                    })
+                    .collect();
+                for e in 0..ne {
+                    allowed[e] = set.contains(&classes[e]);
+                }
+            }
+            Some(allowed)
+        }
+        FrontierCfg::Vehicle { rows } => {
+            let vp = query.get("vehicle_parameters")?;
+            let d = |k: &str| -> Option<f64> { Some(vp[k][0].as_f64()? * dist_unit_si(vp[k][1].as_str()?)?) };
+            let weight = vp["total_weight"][0].as_f64()? * weight_unit_si(vp["total_weight"][1].as_str()?)?;
+            let axles = vp["number_of_axles"].as_u64()? as f64;
+            let mut allowed = vec![true; ne];
+            for (e, name, val, unit) in rows {
+                let (veh, limit) = match name.as_str() {
+                    "maximum_total_weight" => (weight, val * weight_unit_si(unit)?),
+                    "maximum_weight_per_axle" => (weight / axles, val * weight_unit_si(unit)?),
+                    "maximum_length" => (d("total_length")?, val * dist_unit_si(unit)?),
+                    "maximum_width" => (d("width")?, val * dist_unit_si(unit)?),
+                    "maximum_height" => (d("height")?, val * dist_unit_si(unit)?),
+                    "maximum_trailer_length" => (d("trailer_length")?, val * dist_unit_si(unit)?),
+                    _ => return None,
+                };
+                // equality (to rounding) is permitted
+                if veh > limit * (1.0 + 1e-9) && *e < ne {
+                    allowed[*e] = false;
+                }
+            }
+            Some(allowed)
+        }
+        FrontierCfg::Combined(v) => {
+            let mut allowed = vec![true; ne];
+            for c in v {
+                let a = oracle_allowed(c, query, ne)?;
+                for e in 0..ne {
+                    allowed[e] = allowed[e] && a[e];
+                }
+            }
+            Some(allowed)
+        }
+    }
+}
+
+/// all restricted turn pairs listed anywhere in the configuration
+pub fn oracle_restricted_turns(cfg: &FrontierCfg) -> Vec<(usize, usize)> {
+    match cfg {
+        FrontierCfg::Turn { pairs } => pairs.clone(),
+        FrontierCfg::Combined(v) => v.iter().flat_map(oracle_restricted_turns).collect(),
+        _ => vec![],
+    }
+}
